@@ -1,7 +1,16 @@
 from vlib import H
 PROPERTY = 'C19'
 LEVEL = 'model_checking'
-CLAIM = 'wip'
+CLAIM = ('Kernel-level claim on the real pruning decision code. (1) Chainstate::GetPruneRange on a phantom Chainstate, for every tip height (incl. empty chain), every 32-bit requested height and every '
+         'snapshot/assumeutxo state: prune_end == min(requested, max(0, tip-288)) and a positive prune_end is always <= tip-288; prune_start == snapshot base + 1 iff the chainstate was created from a snapshot that is not '
+         'yet VALIDATED, else 0; {0,0} for tip <= 0. (2) node::BlockManager::FindFilesToPrune / FindFilesToPruneManual / CalculateCurrentUsage composed with the real GetPruneRange over a real m_blockfile_info vector of 1..3 '
+         'CBlockFileInfo with symbolic sizes and height ranges (PruneOneBlockFile replaced by a recorder): every pruned file has nSize > 0, lies below the write cursors, has nHeightLast <= prune_end and nHeightFirst >= prune_start '
+         '(so holds no block of the last 288 below the tip, above the requested/prune-lock-limited height, or at/below an unvalidated snapshot base); files are pruned at most once in ascending order; setFilesToPrune equals the '
+         'pruned set; unpruned entries are untouched; automatic pruning prunes nothing while tip <= PruneAfterHeight, the chain is empty, or usage + 17 MiB < target (target = max(550 MiB, prune_target / (2 if a historical '
+         'chainstate exists else 1))), never prunes a file once usage + (IBD-enlarged) buffer is below the target, and on return usage + buffer is below the target or no eligible file remains; usage bookkeeping equals '
+         'the exact (128-bit) sum; manual pruning removes exactly the eligible files. NOT decided: prune locks (the min over m_prune_locks is computed inline in Chainstate::FlushStateToDisk and only enters here as '
+         'last_prune), PruneOneBlockFile itself (block-index flags), UnlinkPrunedFiles/disk, block-file layout histories and reorgs. Observation (not a violation of the encoded oracle): for tips 1..288 prune_end is 0, '
+         'so a block file containing only the genesis block is prunable although height 0 is within 288 blocks of the tip.')
 RB = '_ZNSt8_Rb_treeIiiSt9_IdentityIiESt4lessIiESaIiEE'
 RBSET = ','.join(x + ':4' for x in [RB + '16_M_insert_uniqueIRKiEESt4pairISt17_Rb_tree_iteratorIiEbEOT_.0', '_ZSt18_Rb_tree_decrementPSt18_Rb_tree_node_base.0', '_ZSt18_Rb_tree_decrementPSt18_Rb_tree_node_base.1'])
 NOLOG = ['_ZN4util3log23LogPrintFormatInternal_[A-Za-z0-9_]*', '_ZN4util6detail24CheckNumFormatSpecifiersILj[0-9]+EEEvPKc']
@@ -25,7 +34,7 @@ AS = ['last_prune in [0, INT_MAX] (Chainstate::FlushStateToDisk passes the tip h
 HARNESSES = [
     H('prunerange', 'prunerange.cpp', 'h_prunerange', link=['validation.cpp'], shadow=['nofmt'], unwind=4, timeout=300, objbits=10,
       functions=['Chainstate::GetPruneRange', 'Chainstate::SnapshotBase', 'CChain::Height'],
-      stubs=['phantom Chainstate: m_chain (CChain, vector size set directly), m_from_snapshot_blockhash, m_assumeutxo, m_cached_snapshot_base, m_chainman/m_blockman reference slots',
+      stubs=['phantom Chainstate (typed zeroed storage, no constructor): m_chain (CChain whose vector size is set directly: only Height() is read), m_from_snapshot_blockhash, m_assumeutxo, m_cached_snapshot_base (set or null), m_chainman/m_blockman reference slots',
              'node::BlockManager::LookupBlockIndex -> the harness snapshot-base block', 'assertion_fail -> CBMC assertion', 'tinyformat -> empty strings'],
       bounds='all 31-bit tip heights incl. empty chain, all 32-bit requested heights, all snapshot-base heights; loop-free'),
     H('prunefiles', 'prunefiles.cpp', 'h_prunefiles', link=['node/blockstorage.cpp', 'validation.cpp'], entries=ENT, tentries=TENT, shadow=['nofmt'], noop=NOLOG, unwind=6, defines={'SETSTUB': 1}, memunwind=168, timeout=300, objbits=10,
